@@ -55,9 +55,32 @@ class V:
         self.amb = amb
 
 
+class Refuses(Exception):
+    """one allowed reading: a text filter refuses a non-string"""
+
+
+# A text filter (x, u, trim, entity) given a non-string: the documentation speaks of strings.  Allowed readings:
+# the filter refuses the value (raises), or it works on str(value); trim ("string.strip()") may also use the
+# value's own strip().  Every combination of readings is run; the implementation must match one of them.
+OPTIONS = {"x": ("refuse", "text"), "u": ("refuse", "text"), "entity": ("text", "refuse"), "trim": ("refuse", "text", "method")}
+_POLICY = {}
+_MET = []
+
+
 def _need_str(name, s):
-    if not isinstance(s, str):
-        raise DontCare("%s applied to a non-string (%s)" % (name, type(s).__name__))
+    """-> the string the filter works on (s itself when it is one)"""
+    if isinstance(s, str):
+        return s
+    opt = _POLICY.get(name)
+    if opt is None:
+        opt = _POLICY[name] = OPTIONS[name][0]
+    if name not in _MET:
+        _MET.append(name)
+    if opt == "refuse":
+        raise Refuses("%s refuses a %s" % (name, type(s).__name__))
+    if opt == "method":
+        return None
+    return str(s)
 
 
 def stage_builtin(name, val):
@@ -69,19 +92,23 @@ def stage_builtin(name, val):
     if name in ("str", "unicode"):  # documented: the Python 3 str built-in
         return V(str(s))
     if name == "trim":  # documented: string.strip()
-        _need_str(name, s)
-        return V(s.strip(), val.amb)
+        t = _need_str(name, s)
+        if t is None:
+            if not hasattr(s, "strip"):
+                raise Refuses("trim: no strip()")
+            return V(s.strip())
+        return V(t.strip(), val.amb)
     if name == "u":  # documented: urllib.quote_plus(string.encode('utf-8'))
-        _need_str(name, s)
+        s = _need_str(name, s)
         return V(urllib.parse.quote_plus(s.encode("utf-8")))
     if name == "x":  # documented: XML escaping (the spelling of the quote entities is not fixed)
-        _need_str(name, s)
+        s = _need_str(name, s)
         if "'" in s or '"' in s:
             raise DontCare("x applied to text containing quotes (entity spelling not documented)")
         out = str(s).replace("&", "&amp;").replace("<", "&lt;").replace(">", "&gt;")
         return V(out, val.amb or isinstance(s, markupsafe.Markup))
     if name == "entity":  # documented: HTML entity references derived from htmlentitydefs
-        _need_str(name, s)
+        s = _need_str(name, s)
         return V(str(s).translate(_ENT), val.amb or isinstance(s, markupsafe.Markup))
     raise AssertionError(name)
 
@@ -163,7 +190,9 @@ USER_NAMES = "f1, f2, g, ns, boom"
 MOD_NAMES = "f3, f4, f5"
 
 
-def print_nodes(nodes):
+def print_nodes(nodes, attr_raw=None):
+    """attr_raw: the exact text to write in every filter= attribute (spelling families)"""
+    fl_ = (lambda f: attr_raw) if attr_raw is not None else flist
     out = []
     for nd in nodes:
         k = nd[0]
@@ -183,24 +212,24 @@ def print_nodes(nodes):
             if fl.get("buffered"):
                 a += ' buffered="True"'
             if fl.get("filter") is not None:
-                a += " filter=" + _attr(flist(fl["filter"]))
-            out.append("<%def" + a + ">" + print_nodes(body) + "</%def>")
+                a += " filter=" + _attr(fl_(fl["filter"]))
+            out.append("<%def" + a + ">" + print_nodes(body, attr_raw) + "</%def>")
         elif k == "block":
             _, name, filters, body = nd
             a = ""
             if name:
                 a += ' name="%s"' % name
             if filters is not None:
-                a += " filter=" + _attr(flist(filters))
-            out.append("<%block" + a + ">" + print_nodes(body) + "</%block>")
+                a += " filter=" + _attr(fl_(filters))
+            out.append("<%block" + a + ">" + print_nodes(body, attr_raw) + "</%block>")
         elif k == "call":
             _, name, body = nd
-            out.append('<%call expr="' + name + '()">' + print_nodes(body) + "</%call>")
+            out.append('<%call expr="' + name + '()">' + print_nodes(body, attr_raw) + "</%call>")
         elif k == "texttag":
             _, s, filters = nd
             a = ""
             if filters is not None:
-                a += " filter=" + _attr(flist(filters))
+                a += " filter=" + _attr(fl_(filters))
             out.append("<%text" + a + ">" + s + "</%text>")
         else:
             raise AssertionError(nd)
@@ -211,7 +240,7 @@ def print_program(prog):
     """-> (template text, Template keyword arguments (JSON-able))"""
     head = ""
     if prog.get("P") is not None:
-        head += "<%page expression_filter=" + _attr(flist(prog["P"])) + "/>"
+        head += "<%page expression_filter=" + _attr(prog["attr_raw"] if prog.get("attr_raw") is not None and prog.get("attr_raw_page") else flist(prog["P"])) + "/>"
     mod = []
     if prog.get("pbind") == "module":
         mod.append("from mc.c02_env import " + MOD_NAMES)
@@ -233,7 +262,7 @@ def print_program(prog):
         imports.append("from mc.c02_env import " + USER_NAMES)
     if imports:
         kw["imports"] = imports
-    return head + print_nodes(prog["body"]), kw
+    return head + print_nodes(prog["body"], None if prog.get("attr_raw_page") else prog.get("attr_raw")), kw
 
 
 def context_for(prog, vname):
@@ -394,8 +423,10 @@ def reference_sub(prog, ctx):
     return lambda: Interp(prog, ctx).render()
 
 
-def reference(prog, ctx):
-    """-> ("ok", text, steps, [other allowed texts]) | ("dontcare", reason, steps) | ("error", exception class name, steps)"""
+RAISES = "\x00raises"  # among the allowed alternatives: "the render raises"
+
+
+def _reference_once(prog, ctx):
     it = Interp(prog, ctx)
     try:
         out = it.render()
@@ -409,3 +440,48 @@ def reference(prog, ctx):
         return ("dontcare", str(e), it.steps[0])
     except Exception as e:  # the documented composition itself raises: so must the template
         return ("error", type(e).__name__, it.steps[0])
+
+
+def reference(prog, ctx):
+    """-> ("ok", text, steps, [other allowed outcomes: texts or RAISES]) | ("dontcare", reason, steps)
+    | ("error", exception class name, steps)"""
+    _POLICY.clear()
+    del _MET[:]
+    first = _reference_once(prog, ctx)
+    if not _MET:
+        return first
+    # a text filter met a non-string: run every combination of the allowed readings
+    import itertools
+
+    names = list(_MET)
+    results = []
+    for _round in range(4):
+        results = []
+        grew = False
+        for combo in itertools.product(*[OPTIONS[n] for n in names]):
+            _POLICY.clear()
+            _POLICY.update(zip(names, combo))
+            del _MET[:]
+            results.append(_reference_once(prog, ctx))
+            for n in _MET:
+                if n not in names:
+                    names.append(n)
+                    grew = True
+        if not grew:
+            break
+    else:
+        return ("dontcare", "too many readings", first[2])
+    _POLICY.clear()
+    steps = max(r[2] for r in results)
+    if any(r[0] == "dontcare" for r in results):
+        return ("dontcare", [r for r in results if r[0] == "dontcare"][0][1], steps)
+    oks = [r for r in results if r[0] == "ok"]
+    errs = [r for r in results if r[0] == "error"]
+    if not oks:
+        return ("error", errs[0][1], steps)
+    texts = []
+    for r in oks:
+        for t in [r[1]] + list(r[3]):
+            if t not in texts:
+                texts.append(t)
+    return ("ok", texts[0], steps, texts[1:] + ([RAISES] if errs else []))
